@@ -15,6 +15,21 @@ Record case := mkCase {
 Definition tok_offs (l : list (bytes * list Z)) : list Z :=
   tok_list (fun ko => tok_bytes (fst ko) ++ tok_list (fun v => [v]) (snd ko)) l.
 
+
+(* The property gives the offset as start + i*(end-start)/n without saying how the division is
+   rounded to nanoseconds: the code's i * ((end-start)/n) and floor (i*(end-start)/n) differ by
+   up to n ns.  Per sensor element: offsets that differ from the model's by less than a microsecond,
+   start exactly at the sample's start (i = 0) and never decrease still meet it (S). *)
+Fixpoint nondecr (l : list Z) : bool :=
+  match l with a :: ((b :: _) as r) => (a <=? b) && nondecr r | _ => true end.
+Definition offs_close (m i : list (bytes * list Z)) : bool :=
+  Nat.eqb (length m) (length i) &&
+  forallb (fun '((k, a), (k', b)) =>
+             zlist_eqb (tok_bytes k) (tok_bytes k') && Nat.eqb (length a) (length b) &&
+             forallb (fun '(x, y) => Z.abs (x - y) <? 1000) (combine a b) &&
+             nondecr b && match a, b with x :: _, y :: _ => x =? y | _, _ => true end)
+          (combine m i).
+
 Definition check_case (c : case) : verdict :=
   let traks := map (fun '(h, n, ts, tb) => mkTrak (s_of_bytes h) (s_of_bytes n) ts tb) (c_traks c) in
   match c_class c with
@@ -25,7 +40,10 @@ Definition check_case (c : case) : verdict :=
       if Nat.eqb cls 0 then
         if zlist_eqb (tok_tree (mkProj true true false false) t) (tok_tree (mkProj true true false false) (c_tree c))
            && zlist_eqb (tok_offs offs) (tok_offs (c_offsets c))
-        then VA else VV
+        then VA
+        else if zlist_eqb (tok_tree (mkProj true true false false) t) (tok_tree (mkProj true true false false) (c_tree c))
+                && offs_close offs (c_offsets c)
+        then VS else VV
       else if c_valid c then VV else VS
     | Err _ => if Nat.eqb cls 1 then VA else if c_valid c then VV else VS
     | _ => VK
